@@ -211,7 +211,7 @@ def run(prog, rep, tier):
     itz = it[2][0] if it[0] == "ext" and it[1] == "enumerate" and len(it[2]) == 1 and not it[3] else it
     if itz[0] == "ext" and itz[1] == "zip" and len(itz[2]) == 2 and not itz[3]:
         for r_, x_ in (itz[2], itz[2][::-1]):
-            if same_ratios(r_) and not same_ratios(x_) and x_[0] in ("comp", "ext") and peeled_iter(it, RAT, same_ratios) is None:
+            if same_ratios(r_) and not same_ratios(x_) and peeled_iter(it, RAT, same_ratios) is None:
                 zc = {"ratios": r_, "cont": x_, "idx": ("idx", itz) if itz is not it else None}
     if it[0] == "ext" and it[1] == "enumerate" and len(it[2]) == 1:
         src = it[2][0]
